@@ -21,6 +21,7 @@ import (
 	"path/filepath"
 	"strings"
 	"sync"
+	"syscall"
 	"time"
 
 	"github.com/mutagen-io/mutagen/pkg/encoding"
@@ -46,10 +47,10 @@ var modeNames = []string{"tws", "twr", "ows", "owr"}
 // ---- scripted case ----------------------------------------------------------
 
 type cycleScript struct {
-	Alpha   any   `json:"alpha,omitempty"`   // tree to put on alpha's disk before the cycle, or nil = keep
-	Beta    any   `json:"beta,omitempty"`    // same for beta
-	OutSeed int64 `json:"outSeed"` // 0 = every transition succeeds exactly; otherwise seeds partial outcomes
-	MutA    int64 `json:"mutA"`    // non-zero: mutate alpha's current disk with this seed (external edit)
+	Alpha   any   `json:"alpha,omitempty"` // tree to put on alpha's disk before the cycle, or nil = keep
+	Beta    any   `json:"beta,omitempty"`  // same for beta
+	OutSeed int64 `json:"outSeed"`         // 0 = every transition succeeds exactly; otherwise seeds partial outcomes
+	MutA    int64 `json:"mutA"`            // non-zero: mutate alpha's current disk with this seed (external edit)
 	MutB    int64 `json:"mutB"`
 }
 
@@ -63,10 +64,10 @@ type caseScript struct {
 // ---- fake endpoint ------------------------------------------------------------
 
 type sessionCase struct {
-	cid    int
-	mu     sync.Mutex
-	recs   []map[string]any
-	script caseScript
+	cid     int
+	mu      sync.Mutex
+	recs    []map[string]any
+	script  caseScript
 	inexact int
 }
 
@@ -382,7 +383,9 @@ func runCase(c *vlib.Ctx, m *synchronization.Manager, dataDir string, cid int, s
 	return cs.recs
 }
 
-func selFor(id string) *selection.Selection { return &selection.Selection{Specifications: []string{id}} }
+func selFor(id string) *selection.Selection {
+	return &selection.Selection{Specifications: []string{id}}
+}
 
 // waitWatching waits until the run loop has connected and is able to synchronize (manual mode: it then waits for a flush).
 func waitWatching(m *synchronization.Manager, sel *selection.Selection) {
@@ -602,6 +605,19 @@ func run(c *vlib.Ctx) error {
 		}
 	}
 	realBase := c.TempDir("roots")
+	// half of the real-disk sessions keep their roots on another device than the data directory
+	// (staging then crosses devices and transitions take the copy-and-rename fallback)
+	realBaseX := ""
+	if fi, err := os.Stat("/dev/shm"); err == nil && fi.IsDir() {
+		var a, b syscall.Stat_t
+		if syscall.Stat("/dev/shm", &a) == nil && syscall.Stat(realBase, &b) == nil && a.Dev != b.Dev {
+			if d, err := os.MkdirTemp("/dev/shm", "verif-session-"); err == nil {
+				realBaseX = d
+				defer rmTree(d)
+			}
+		}
+	}
+	crossDevice := 0
 	// cases run in parallel sessions of the one manager; records of a case are emitted contiguously
 	type job struct {
 		cid  int
@@ -618,7 +634,11 @@ func run(c *vlib.Ctx) error {
 			for j := range jobs {
 				var recs []map[string]any
 				if j.real != nil {
-					recs = runRealCase(m, dataDir, realBase, j.cid, *j.real)
+					base := realBase
+					if realBaseX != "" && j.cid%2 == 0 {
+						base = realBaseX
+					}
+					recs = runRealCase(m, dataDir, base, j.cid, *j.real)
 				} else {
 					recs = runCase(c, m, dataDir, j.cid, j.sc)
 				}
@@ -642,6 +662,10 @@ func run(c *vlib.Ctx) error {
 	wg.Wait()
 	c.SetExtra("sessions", n)
 	c.SetExtra("real_disk_sessions", nreal)
+	if realBaseX != "" {
+		crossDevice = nreal / 2
+	}
+	c.SetExtra("real_disk_sessions_cross_device", crossDevice)
 	return nil
 }
 
